@@ -172,6 +172,12 @@ type PipeSender[T any] struct {
 //
 // Send may be called concurrently with other Sends and with Close.
 func (s *PipeSender[T]) Send(ctx context.Context, x T) error {
+	// Once the sender is closed nothing more may enter the pipe, even if its buffer has room.
+	select {
+	case <-s.senderDone:
+		return *s.senderErr
+	default:
+	}
 	select {
 	case <-ctx.Done():
 		return ctx.Err()
@@ -234,6 +240,12 @@ func (s *pipeStream[T]) Next(ctx context.Context) (T, error) {
 	case item := <-s.c:
 		return item, nil
 	case <-s.senderDone:
+		// Values that were sent before the sender closed are delivered before the end is reported.
+		select {
+		case item := <-s.c:
+			return item, nil
+		default:
+		}
 		err := *s.senderErr
 		if err != nil {
 			return zero, err
